@@ -931,6 +931,15 @@ func (x *Exec) havocModifies(cfr *Frame, st *State, pre *State, target Expr) {
 			}
 		}
 	}
+	// an entry reached through a nil pointer denotes nothing (see specDefined): the havoc goes to a fresh,
+	// unreachable object instead of whatever a field read at the nil reference would name
+	if def := x.specDefined(&specScope{x: x, fr: cfr, st: pre, old: pre}, target); def != True && len(v.L) > 0 && v.L[0] != nil {
+		switch v.T.Underlying().(type) {
+		case *types.Pointer, *types.Map, *types.Slice:
+			v.L = append([]*Term{}, v.L...)
+			v.L[0] = x.define(st, "modref", Ite(def, v.L[0], x.newRef(st, "nomod")))
+		}
+	}
 	x.havocReachable(st, v)
 }
 
